@@ -211,7 +211,7 @@ def driver_verdicts(ctx, facts):
         raise vlib.BuildError("driver c10 summary: " + out[1][:200])
     sec, cur = {}, None
     for t in st[3:]:
-        if t in ("R", "C", "F", "S", "U", "P", "J"):
+        if t in ("R", "C", "F", "S", "U", "P", "J", "M", "H"):
             cur = t if t != "R" else ("R2" if "R1" in sec else "R1")
             sec[cur] = []
         else:
@@ -232,10 +232,72 @@ def driver_verdicts(ctx, facts):
         problems.append("thread creation in the library is not exactly boot() -> filtering_recursion: %s" % sec.get("P"))
     if sec.get("J", []) != ["1" if disc["join_certified"] else "0"]:
         problems.append("Lean definition and translator's evaluation differ on the join certification: lean=%s translator=%s" % (sec.get("J"), disc["join_certified"]))
+    # thread confinement of the user's model objects, evaluated independently from the translator's facts
+    F_, reachC, reachF = facts["fields"], set(disc["reach"]["controller"]), set(disc["reach"]["filter"])
+    mids = [i for i, f in enumerate(F_) if f["cls"] == "user" and f["name"] in ("measurement_model_state", "likelihood_model_state", "initialization_state")]
+    rowsC = {a["field"] for a in facts["accesses"] if a["meth"] in reachC}
+    rowsF = {a["field"] for a in facts["accesses"] if a["meth"] in reachF}
+    confined = len(mids) == 3 and all(i not in rowsC and i in rowsF for i in mids)
+    facts["model_confined"] = {"fields": [F_[i]["name"] for i in mids], "confined": confined,
+                               "controller_rows": sorted(F_[i]["name"] for i in mids if i in rowsC)}
+    hids = [i for i, f in enumerate(F_) if f["cls"] == "user" and f["name"] == "hook_state"]
+    hconf = len(hids) == 1 and all(i not in rowsC and i in rowsF for i in hids)
+    facts["hooks_confined"] = hconf
+    if sec.get("H", []) != ["1" if hconf else "0"]:
+        problems.append("Lean definition and translator's evaluation differ on the confinement of the filter's hooks: lean=%s translator=%s" % (sec.get("H"), hconf))
+    if sec.get("M", []) != ["1" if confined else "0"]:
+        problems.append("Lean definition and translator's evaluation differ on the confinement of the model objects: lean=%s translator=%s" % (sec.get("M"), confined))
     if set(verdicts) != set(mirror) or any(verdicts[n]["ok"] != mirror[n]["ok"] for n in verdicts if n in mirror):
         problems.append("translator's evaluation and Lean's evaluation of the discipline differ: lean=%s mirror=%s" % (
             sorted(n for n, v in verdicts.items() if not v["ok"]), sorted(n for n, v in mirror.items() if not v["ok"])))
     return verdicts, "lean-driver", problems
+
+
+def confinement_facts(ctx, facts):
+    """BFL/Props/C10Confine.lean (table_model_confined, table_hooks_confined on the regenerated table) is built
+    separately; with the translator's own evaluation: which command reaches which user interface."""
+    rc, log = vlib.lean_build(["BFL.Props.C10Confine"])
+    F_, M_, disc = facts["fields"], facts["methods"], facts["discipline"]
+    pseudo = {i: f["name"] for i, f in enumerate(F_) if f["cls"] == "user"}
+    reachC = set(disc["reach"]["controller"])
+    succ = {}
+    for c in facts["calls"]:
+        if c.get("kind") in ("direct", "virtual", "virt", "ref"):
+            succ.setdefault(c["caller"], set()).add(c["callee"])
+    def reach_from(root):
+        seen, todo = {root}, [root]
+        while todo:
+            x = todo.pop()
+            for y in succ.get(x, ()):
+                if y not in seen:
+                    seen.add(y); todo.append(y)
+        return seen
+    per_root = {r: reach_from(r) for r in disc["roots"]["controller"]}
+    reached = []
+    for a in facts["accesses"]:
+        if a["field"] in pseudo and a["meth"] in reachC:
+            cmds = sorted(M_[r]["qual"] for r, s_ in per_root.items() if a["meth"] in s_)
+            reached.append({"interface": pseudo[a["field"]], "call_in": M_[a["meth"]]["qual"], "line": a["line"],
+                            "locks_held": [F_[l]["cls"] + "::" + F_[l]["name"] for l in a["locks"]], "commands": cmds})
+    guarded = facts.get("guarded_model_calls", [])
+    if guarded:
+        ctx.notes.append("guarded model calls (not an alarm; ThreadSanitizer decides): a command calls a user model interface under a mutex of the "
+                         "calling object; the table cannot establish that the filtering thread's calls take the same mutex (one pseudo-member per "
+                         "interface for all owner classes): %s" % "; ".join("%s in %s:%d under %s" % (g["interface"], g["function"], g["line"], g["locks"]) for g in guarded[:6]))
+    gcalls = facts.get("guarded_calls", [])
+    if gcalls:
+        ctx.notes.append("guarded calls (not an alarm; ThreadSanitizer decides): a command-reachable function calls into another object while holding a mutex "
+                         "of its own object; the same-object lockset discipline cannot credit that lock to the callee's members: %s"
+                         % "; ".join("%s -> %s under %s" % (g["caller"], g["callee"], g["locks"]) for g in gcalls[:6]))
+    lost = bool(reached) or bool(guarded) or bool(gcalls) or rc != 0
+    info = {"confinement_lost": lost, "lean_facts_hold": rc == 0, "reached": reached[:20], "guarded_model_calls": guarded[:20], "guarded_calls": gcalls[:30],
+            "model": facts.get("model_confined"), "hooks": facts.get("hooks_confined"),
+            "note": "confinement of the user's model objects / filter hooks to the filtering thread is stronger than the property; "
+                    "recorded only — the lockset discipline over the pseudo-members decides"}
+    if lost:
+        ctx.notes.append("confinement lost (not an alarm): %s" % ("; ".join("%s reaches %s in %s (line %d, locks %s)" % (
+            ",".join(x["commands"]) or "?", x["interface"], x["call_in"], x["line"], x["locks_held"] or "none") for x in reached[:6]) or log[-300:]))
+    return info
 
 
 def tsan_cases(ctx):
@@ -259,6 +321,11 @@ def tsan_cases(ctx):
     for kind in ("kf", "sis"):
         for _ in range(ctx.n(1, 3)):
             cases.append("initfail %s %d" % (kind, g.r.randint(1, 10 ** 6)))     # failing, slow initialisation vs commands
+    # every command while the filtering thread leaves its recursion for good / after it has ended, before the join
+    for kind in (("kf", "sis") if ctx.quick() else KINDS):
+        for mode in ("teardown", "expire"):
+            for _ in range(ctx.n(1, 3)):
+                cases.append("exit %s %d %s" % (kind, g.r.randint(1, 10 ** 6), mode))
     if not ctx.quick():
         cases.append("extlog kf %d LOG" % g.r.randint(1, 10 ** 6))      # advisory: logging reconfigured while stepping
         cases.append("extlog sis %d LOG" % g.r.randint(1, 10 ** 6))
@@ -301,6 +368,8 @@ def run(ctx):
     fname = lambda f: F[f]["cls"] + "::" + F[f]["name"]
     ctx.proof_stage()
     verdicts, vsource, problems = driver_verdicts(ctx, facts)
+    # confinement (stronger than the property): evaluated outside the deciding build path, recorded, never an alarm
+    confinement = confinement_facts(ctx, facts)
     undisciplined = sorted(n for n, v in verdicts.items() if not v["ok"])
     disciplined_shared = sorted(n for n, v in verdicts.items() if v["ok"])
     if ctx.replay:
@@ -326,6 +395,8 @@ def run(ctx):
     unpredicted = []       # (key, what, case, report)
     other_warnings = {}
     afterwait_reports = []
+    foreign_model = []
+    foreign_hook = []
     advisory_observed = set()
     for ci, line in enumerate(cases):
         r = run_tsan_case(binary, line, timeout=ctx.n(60, 240))
@@ -335,6 +406,15 @@ def run(ctx):
         if (r["out"] == "timeout" or not r["out"].startswith("ok")) and not line.startswith("extlog"):
             timeouts += 1
             ctx.notes.append("run did not complete: %s -> %s" % (line, r["out"][:80]))
+        mfc = re.search(r"foreign_model_calls=(\d+)", r["out"])
+        if mfc and int(mfc.group(1)) > 0 and not line.startswith("extlog"):
+            # direct observation (no race detector needed): a controller command executed a virtual function of one of the
+            # harness's model objects (measurement / likelihood / state / exogenous / initialisation model = user code that
+            # belongs to the filtering thread) on the controller thread
+            foreign_model.append((r, int(mfc.group(1))))
+        hfc = re.search(r"foreign_hook_calls=(\d+)", r["out"])
+        if hfc and int(hfc.group(1)) > 0 and not line.startswith("extlog"):
+            foreign_hook.append((r, int(hfc.group(1))))
         if line.startswith("extlog"):
             # advisory case (enable_log / disable_log are not commands of the property): compare with the advisory
             # prediction, never a violation
@@ -382,6 +462,11 @@ def run(ctx):
             ctx.violation(key_of(n), what + " — data race observed by ThreadSanitizer", {
                 "harness": "h_race (tsan build)", "command": runs[ci]["cmd"], "input_line": runs[ci]["line"],
                 "table_verdict": v, "tsan_report": rep["text"][:5000], "observed_in_runs": len({c for c, _ in observed[n]}), "runs": len(runs)})
+        elif n.startswith("user::") and (foreign_hook if n == "user::hook_state" else foreign_model):
+            r_, cnt = min((foreign_hook if n == "user::hook_state" else foreign_model), key=lambda x: len(x[0]["line"]))
+            ctx.violation(key_of(n), what + " — the controller thread was observed executing such a call (%d call(s)) in `%s`" % (cnt, r_["line"]), {
+                "harness": "h_race (tsan build)", "command": r_["cmd"], "input_line": r_["line"], "table_verdict": v,
+                "observed": r_["out"][-300:], "observation": "calls of the interface counted on the controller thread by the harness's own model objects / hooks"})
         else:
             ctx.violation(key_of(n), what + " — no ThreadSanitizer replay found in %d runs" % len(runs),
                           {"table_verdict": v, "runs": [r["line"] for r in runs]}, no_input=True)
@@ -399,6 +484,16 @@ def run(ctx):
             continue
         seen.add(key)
         ctx.violation(key, what, {"harness": "h_race (tsan build)", "command": r["cmd"], "input_line": r["line"], "tsan_report": rep["text"][:5000]})
+    # Direct observations (a model object's virtual function / a filter hook executed on the controller thread) are
+    # NOT alarms by themselves: the harness cannot tell whether the command holds a mutex that the filtering thread
+    # also takes around its own calls (that would be race-free).  They are notes; the alarm comes from the lockset
+    # discipline over the pseudo-members (above, with the observing run as failing input) and from ThreadSanitizer.
+    for kind_, lst in (("model object (measurement / likelihood / state / exogenous / initialisation model)", foreign_model),
+                       ("filter hook (initialization_step / filtering_step / run_condition / log)", foreign_hook)):
+        if lst:
+            r, n = min(lst, key=lambda x: len(x[0]["line"]))
+            ctx.notes.append("observation (not an alarm): a command executed a virtual function of a %s on the controller thread: "
+                             "%d call(s) in `%s`, %d run(s)" % (kind_, n, r["line"], len(lst)))
     for p in problems:
         ctx.violation("correspondence:translator-vs-lean", p, {"problem": p}, no_input=True)
 
@@ -408,6 +503,9 @@ def run(ctx):
         if r["line"].startswith("initfail"):
             hist["initfail"] = hist.get("initfail", 0) + 1
             continue
+        if r["line"].startswith("exit"):
+            hist["exit " + r["line"].split()[3]] = hist.get("exit " + r["line"].split()[3], 0) + 1
+            continue
         if r["line"].startswith("extlog"):
             hist["extlog (advisory)"] = hist.get("extlog (advisory)", 0) + 1
             continue
@@ -416,7 +514,7 @@ def run(ctx):
             continue
         for tok in r["out"].split()[1:]:
             k, _, v = tok.partition("=")
-            if k in ("steps", "cmds", "logging", "kind"):
+            if k in ("steps", "cmds", "logging", "kind", "mode"):
                 continue
             if "/" in v:
                 a, b = v.split("/")
@@ -451,6 +549,11 @@ def run(ctx):
         "functions_handing_out_references": sum(1 for m in facts["methods"] if m.get("escapes")),
         "join_certified": facts["discipline"]["join_certified"],
         "thread_handle_operations": ["%s: %s (line %d)" % (facts["methods"][t["meth"]]["qual"], t["op"], t["line"]) for t in facts.get("thread_ops", [])],
+        "confinement": confinement, "confinement_lost": confinement["confinement_lost"],
+        "model_objects_confined_to_filtering_thread": facts.get("model_confined"),
+        "runs_with_model_calls_on_controller_thread": len(foreign_model),
+        "filter_hooks_confined_to_filtering_thread": facts.get("hooks_confined"),
+        "runs_with_hook_calls_on_controller_thread": len(foreign_hook),
         "afterwait_runs": sum(1 for r in runs if r["line"].startswith("afterwait")), "afterwait_reports": len(afterwait_reports),
         "translator_cross_check": {"rule": "every identifier naming a data member (…_) inside the source extent of a member function has a table row",
                                    "functions_scanned": sum(1 for m in facts["methods"] if m["body"] and m.get("end_line")),
